@@ -203,7 +203,7 @@ func (e *Engine) addReach(st *State, name string) {
 		e.obls[name] = o
 		e.oblOrder = append(e.oblOrder, name)
 	}
-	if len(o.Paths) < 8 {
+	if len(o.Paths) < 256 {
 		o.Paths = append(o.Paths, &OblPath{PC: append([]string{}, st.pc...), Goal: "false"})
 	}
 }
